@@ -413,6 +413,7 @@ func rulesC04(w *World, r *Report) {
 	w.ruleTablesAppendOnly(r, "C04.R7 ref tables are append-only within a stream", []string{"Encoder", "Decoder"})
 	w.ruleTablesStartEmpty(r, "C04.R7 numbering tables start empty", []string{"Encoder", "Decoder"})
 	w.ruleRefOrdinal(r, "C04.R8 a back-reference is x51 followed by the registrar's ordinal in the int codec")
+	w.ruleHolderTakesConverted(r, "C04.R5 a list converted for its first destination is handed back to its holder")
 	w.ruleNotifyAfterFinalValue(r, "C04.R5 references keep identity")
 
 	// R3 decoder: container readers
